@@ -18,15 +18,29 @@ PLAN = dict(
           "random partitions; zero-length writes interleaved (also exactly before, inside and after each "
           "separator). After every write: return value = chunk length, entries() grows monotonically, is a prefix "
           "of the reference list (each new entry compared as text), and the printed length of the collected "
-          "entries never exceeds the bytes delivered; at the end all 23 getters of every entry and Display of the "
+          "entries never exceeds the bytes delivered; after the first three writes and then after every 2^k-th the "
+          "collection is also printed between writes and must show exactly the entries collected so far; at the end all 23 getters of every entry and Display of the "
           "collection are compared with the generator's entries / the stream. Malformed streams carry one C08 "
           "fault (line without '=', bad name, bad integer, each of the eleven required variables removed in "
           "rotation) in entry j of n (all j < n <= 4) under the same families: an InvalidData error must come no "
           "later than the write delivering the end of that entry's blank line, and entries() at that moment must "
-          "be exactly the j entries before it. Non-trivial = the partition has at least one cut strictly inside "
+          "be exactly the j entries before it. Huge streams (quick: 13 well-formed ones of 66 KiB - 1.1 MiB with "
+          "100 - 4500 entries, built by repeating 3-6 template entries with a running number in PKGNAME/COMMENT; "
+          "tiny, compact and full-size entries; two with one giant entry - a DESCRIPTION of thousands of lines and "
+          "a single value of 70 / 140 KiB) are written in few large chunks: one call; a head of T+-2 bytes and the "
+          "rest, and a head ending 2, 1, 0 bytes before / 1 byte after the entry boundary that follows T, for T = "
+          "4 KiB ... 1 MiB (powers of two) and 10^4, 5 x 10^4, 10^5, 5 x 10^5, 10^6; a big block followed by a short "
+          "tail (1, 2, 3, 7 bytes, half an entry, one entry, one and a half, 1000, 5000, 40000 bytes, a third); "
+          "fixed chunk sizes 1000, 4096, 8192, 16384, 32768, 65535, 65536, 65537, 98304, 131071, 131072, 131073, "
+          "200000, 262144, 524288; a big block then many small writes; small writes then a big block; big and "
+          "small alternating; seeded mixtures of threshold-sized, arbitrary and tiny chunks, a third of them with "
+          "zero-length writes in between - all under the same per-write and end checks. Huge malformed streams "
+          "(75 - 300 KiB) carry one fault in the last entry, the one before, the first entry beyond 64 KiB / "
+          "128 KiB, or one in the second half, under the same families plus heads that end just before, inside and "
+          "just after the malformed entry. Non-trivial = the partition has at least one cut strictly inside "
           "the stream; distinct = distinct (stream bytes, cut list) by 64-bit fingerprint."),
-    exhaustive={"quick": "every single cut of every stream (2 small, 10 medium, 3 large up to 8 KiB, 80 malformed); every pair of cuts of the 2 small streams",
-                "thorough": "every single cut of every stream (12 small, 160 medium, 40 large up to 8 KiB, 960 malformed); every pair of cuts of the 12 small streams and of every medium stream <= 400 bytes"},
+    exhaustive={"quick": "every single cut of every stream up to 8 KiB (2 small, 10 medium, 3 large, 80 malformed); every pair of cuts of the 2 small streams; for each of the 13 + 20 huge streams every head length T-2..T+2 and the four positions around the following entry boundary for every threshold T below the stream length",
+                "thorough": "every single cut of every stream up to 8 KiB (12 small, 160 medium, 40 large, 960 malformed); every pair of cuts of the 12 small streams and of every medium stream <= 400 bytes; the threshold heads of 48 + 80 huge streams"},
     assumptions=[
         "the reference entries and their canonical texts come from the C07 model (harness/src/oracle/summary.rs), which is trusted",
         "a well-formed stream is the concatenation of canonical entry texts each followed by exactly one blank line",
@@ -43,5 +57,6 @@ PLAN = dict(
                   "streams that are not canonical (non-canonical variable order, repeated single-valued variables): Display could not reproduce them",
                   "streams without the final blank line, or with several blank lines between entries",
                   "behaviour of write() calls made after the failing one",
-                  "streams larger than 8 KiB (write re-scans its buffer; byte-at-a-time is quadratic)"],
+                  "streams larger than ~1.1 MiB, single entries larger than ~170 KiB, more than ~4500 entries per stream",
+                  "huge streams under every-cut / byte-at-a-time partitions (they get threshold-centred, fixed-size and seeded partitions of at most a few thousand writes)"],
 )
